@@ -224,4 +224,42 @@ theorem text_label_own_line (cfg : PCfg) (f : Nat) (w : List Char) (hw : NameTex
   simp [parseStmts, ptrim, ptrimR, ptrimL]
   rfl
 
+/-- a trailing comment carries no meaning for the statements of a line (parser) -/
+theorem text_line_comment_ignored (cfg : PCfg) (s c : List Char) (h : ∀ x ∈ s, x ≠ ';' ∧ isQuote x = false) :
+    parseLine cfg (s ++ ';' :: c) = parseLine cfg s :=
+  parseLine_comment cfg s c h
+
+/-- a blank line has no statements (parser) -/
+theorem text_blank_line (cfg : PCfg) (l : List Char) (h : ∀ c ∈ l, isSpaceChar c = true) : parseLine cfg l = .ok [] :=
+  parseLine_blank cfg l h
+
+/-- consecutive instructions on one line (parser): `MN ops MN2 …` is the instruction `MN ops` - its
+    operand text ends where the next mnemonic starts a word - followed by the statements of `MN2 …`,
+    i.e. what the two lines `MN ops` and `MN2 …` give.  `hno` says that the operand text itself holds
+    no mnemonic; the mnemonic is recorded in lower case whatever its spelling. -/
+theorem text_consecutive_instructions (cfg : PCfg) (f : Nat) (w ops w2 r2 : List Char)
+    (hw : NameText w) (hwdot : w.head? ≠ some '.') (hmn : cfg.mnemonics.contains (lowerS w) = true)
+    (hops : ops ≠ [] ∧ ∀ c ∈ ops, isQuote c = false)
+    (hop0 : ∀ c, ops.head? = some c → isSpaceChar c = false ∧ c ≠ '=' ∧ c ≠ ':')
+    (hequ : lowerS (takeName ops).1 ≠ "equ")
+    (hno : cutAtMnemonic cfg none false (' ' :: ops ++ [' ']) = (' ' :: ops ++ [' '], []))
+    (hw2 : NameText w2) (hr2 : ∀ c, r2.head? = some c → isNameChar c = false)
+    (hm2 : cfg.mnemonics.contains (lowerS w2) = true) (hrt : ptrimR r2 = r2) :
+    parseStmts cfg (f + 1) (w ++ ' ' :: ops ++ ' ' :: w2 ++ r2) =
+      (do let fs ← (match parseOperands cfg.regs (' ' :: ops ++ [' ']) with
+                    | .ok fs => pure fs
+                    | .error _ => .error .noVariant)
+          let more ← parseStmts cfg f (w2 ++ r2)
+          .ok (.isa (lowerS w) fs :: more)) :=
+  parseStmts_isa_front cfg f w ops w2 r2 hw hwdot hmn hops hop0 hequ hno hw2 hr2 hm2 hrt
+
+-- the hypotheses are satisfiable: `LDI a,5 Nop` under the mnemonics `ldi`, `nop`
+def exCfg : PCfg := { regs := ["a"], mnemonics := ["ldi", "nop"] }
+example : cutAtMnemonic exCfg none false " a,5 ".toList = (" a,5 ".toList, []) := by
+  simp [cutAtMnemonic, takeName, lowerS_eq, isQuote, isNameChar, isWordChar, exCfg]
+example : exCfg.mnemonics.contains (lowerS "LDI".toList) = true ∧ exCfg.mnemonics.contains (lowerS "Nop".toList) = true ∧
+    lowerS (takeName "a,5".toList).1 ≠ "equ" ∧ NameText "LDI".toList ∧ NameText "Nop".toList := by
+  refine ⟨by rw [lowerS_eq]; decide, by rw [lowerS_eq]; decide, by rw [lowerS_eq]; decide, by unfold NameText; decide,
+    by unfold NameText; decide⟩
+
 end BV.C18
